@@ -138,6 +138,11 @@ pub fn generate(seed: u64, tier: &str, sink: &mut Sink) {
             } else {
                 Reads::Sizes(ns)
             };
+            // one case in eight hands the body to the caller through write_to(): what has arrived is in the caller's
+            // writer before the library goes back to wait on the connection (seed C19-seed10: a 64 KiB BufWriter
+            // between the body and the caller's writer)
+            let via_write_to = rng.chance(1, 8);
+            let reads = if via_write_to { Reads::Drain(if rng.chance(1, 2) { crate::resp::DRAIN_WRITE_TO } else { crate::resp::DRAIN_WRITE_TO_SHORT }) } else { reads };
             let case = RespCase { method: "GET".into(), max_headers: 100, segs, reads };
             let out = run_resp(&case);
             let tag = format!("{}", spec_.framing_name());
@@ -149,6 +154,16 @@ pub fn generate(seed: u64, tier: &str, sink: &mut Sink) {
                 }
                 if out.send_ok_waited {
                     return Err((format!("send-waited-{}", tag), "send() returned Ok but had gone on reading the connection past the blank line ending the head until it would have had to wait".into()));
+                }
+                if let Some(given) = out.sink_before_pause {
+                    // write_to(): it ends in the stall (an error here); what counts is what the sink had by then
+                    if given < must {
+                        return Err((format!("withheld-from-writer-{}", tag), format!("write_to() had given the caller's writer {} bytes when it went back to wait on the connection, although {} payload bytes had arrived completely", given, must)));
+                    }
+                    if !payload.starts_with(&out.partial) {
+                        return Err((format!("fabricated-{}", tag), "write_to() wrote bytes that are not a prefix of the payload".into()));
+                    }
+                    return Ok(());
                 }
                 if let Some(i) = out.ok_read_waited {
                     return Err((format!("satisfied-read-waited-{}", tag), format!("read #{} was satisfied from bytes that had arrived and still went on reading the connection until it would have had to wait for the peer", i)));
